@@ -209,7 +209,11 @@ func (v *value) updateIntValue() error {
 			newval = val.Value
 		}
 
-		newval += v.r.Int63n(right-left+1) + left
+		n := right - left + 1
+		if n <= 0 {
+			return fmt.Errorf("range width overflows int64 in IntRange for %q", v.v)
+		}
+		newval += v.r.Int63n(n) + left
 		if newval > rng.Maximum {
 			newval = rng.Maximum
 		}
